@@ -632,7 +632,8 @@ impl JpegBitstreamReconstructor<'_, '_, '_> {
                 let hf_global = &self.parsed.hf_global;
 
                 let last_idx = self.quant_ptr.iter().position(|qt| qt.is_last);
-                let num_tables = last_idx.expect("is_last not found") + 1;
+                // A DQT marker needs a group of tables that ends; hostile data may have none left.
+                let num_tables = last_idx.ok_or(Error::InvalidData)? + 1;
                 let (qts, remainder) = self.quant_ptr.split_at(num_tables);
                 self.quant_ptr = remainder;
 
